@@ -96,6 +96,23 @@ def fresh_outdir(tag='gen'):
     return d
 
 
+@st.composite
+def prior_runs(draw, pct_=10):
+    """With probability pct_: an earlier, unrelated Generator run in the same process
+    (module-level or class-level state must not leak into the run under test)."""
+    if pct(draw) >= pct_:
+        return None
+    return draw(legal_vectors(nmax=(6, 6, 4), numinst_max=2))
+
+
+def run_prior(prior):
+    if prior:
+        try:
+            run_generator(build_argv(prior, fresh_outdir('prior')), prior['seed'])
+        except Exception:
+            pass        # the prior run's own behaviour is not what the case checks
+
+
 def run_generator(argv, seed):
     """Runs Generator(argv) with both global RNGs seeded.  Returns
     ('ok', None, stderr) or ('exit', code, stderr); other exceptions become Violations."""
